@@ -24,7 +24,7 @@ from typing import Any
 from sim import corpus, histsim, kit, project, runner
 
 PROP = "C07"
-FAMILY = {"model": 1000, "cyc": 240}  # finite scenario family (members are independent of VERIF_SEED); corpus family = cases x 2
+FAMILY = {"model": 1000, "cyc": 240, "pair": 160}  # finite scenario family (members are independent of VERIF_SEED); corpus family = cases x 2
 SEQ_FLAGS = ["--native-parser"]
 
 
@@ -299,9 +299,37 @@ def gen_cyc(k: int) -> dict[str, Any]:
             "par": {"workers": rng.choice([2, 2, 3]), "sched_seed": srng.randrange(1 << 30), "policy": srng.choice(POLICIES)}}
 
 
+PAIR_BASE = 800000
+
+
+def gen_pair(k: int) -> dict[str, Any]:
+    """Hand-shaped members: two to four independent leaf modules whose interfaces change in the same step, each
+    with an unchanged dependant whose diagnostics depend on that interface; warm parallel run (the cache was
+    warmed sequentially or by a parallel run) under policies that deliver several replies in one round."""
+    proj, sched = divmod(k, 4)
+    rng = kit.family_rng(PROP, "pair", proj)
+    n = rng.choice([2, 2, 3, 4])
+    files: dict[str, str] = {}
+    edits = []
+    for j in range(n):
+        leaf, dep = f"l{j}", f"d{j}"
+        files[leaf + ".py"] = f"def f() -> int:\n    return {j}\n"
+        files[dep + ".py"] = f"import {leaf}\ndef g() -> int:\n    return {leaf}.f()\nx: int = {leaf}.f()\n"
+        if j < 2 or rng.random() < 0.7:
+            edits.append({"e": "write", "path": leaf + ".py", "text": f"def f() -> str:\n    return '{j}'\n"})
+    files["main.py"] = "".join(f"import d{j}\n" for j in range(n))
+    cfg = dict(rng.choice([c for c in histsim.STORE_CONFIGS if c["format"] == "ff"]))
+    srng = kit.family_rng(PROP, "pair-sched", k)
+    pol = srng.choice([{"hold_replies": True}, {"hold_replies": True}, {"deliver_weight": 0.1}, {}])
+    return {"files": files, "argv": ["main.py"], "config": cfg, "steps": [{"edits": edits, "gap_s": 2.0, "run": False}],
+            "mode": rng.choice(["warm_seq", "warm_par"]), "pair": proj,
+            "par": {"workers": rng.choice([2, 3, 4]), "sched_seed": srng.randrange(1 << 30), "policy": pol},
+            "followup": {"kind": srng.choice(["seq", "par"]), "step": {"edits": [{"e": "write", "path": "main.py", "text": files["main.py"] + "# again\n"}], "gap_s": 2.0}}}
+
+
 def task(item: tuple[int, str]) -> dict[str, Any]:
     k, tier = item
-    scn = gen_cyc(k - CYC_BASE) if k >= CYC_BASE else gen_corpus(k - 500000, tier) if k >= 500000 else gen(k, tier)
+    scn = gen_pair(k - PAIR_BASE) if k >= PAIR_BASE else gen_cyc(k - CYC_BASE) if k >= CYC_BASE else gen_corpus(k - 500000, tier) if k >= 500000 else gen(k, tier)
     r = evaluate(scn, f"s{k}")
     info = r["info"]
     p = info.get("par") or {}
@@ -328,7 +356,7 @@ def task(item: tuple[int, str]) -> dict[str, Any]:
     if info.get("par_error"):
         raise kit.HarnessError("scheduler summary failed: " + info["par_error"])
     if r["violation"] is not None:
-        out["violation"] = {"scenario": scn, "violation": r["violation"], "script": p.get("decisions"), "family": "cyc" if k >= CYC_BASE else "corpus" if k >= 500000 else "model", "k": k}
+        out["violation"] = {"scenario": scn, "violation": r["violation"], "script": p.get("decisions"), "family": "pair" if k >= PAIR_BASE else "cyc" if k >= CYC_BASE else "corpus" if k >= 500000 else "model", "k": k}
     return out
 
 
@@ -439,8 +467,11 @@ def run(tier: str) -> int:
     n_corpus = 60 if tier == "quick" else len(par_cases())
     items = [(k, tier) for k in kit.sample_indices(PROP, "model", FAMILY["model"], n)] + [(500000 + k, tier) for k in kit.sample_indices(PROP, "corpus", len(par_cases()), n_corpus)]
     items += [(CYC_BASE + k, tier) for k in kit.sample_indices(PROP, "cyc", FAMILY["cyc"], 40 if tier == "quick" else FAMILY["cyc"])]
+    items += [(PAIR_BASE + k, tier) for k in kit.sample_indices(PROP, "pair", FAMILY["pair"], 32 if tier == "quick" else FAMILY["pair"])]
     if os.environ.get("VERIF_C07_ONLY") == "cyc":
-        items = [it_ for it_ in items if it_[0] >= CYC_BASE]
+        items = [it_ for it_ in items if PAIR_BASE > it_[0] >= CYC_BASE]
+    if os.environ.get("VERIF_C07_ONLY") == "pair":
+        items = [it_ for it_ in items if it_[0] >= PAIR_BASE]
     results, skipped = kit.run_pool(task, items, budget_s=900 if tier == "quick" else 3 * 3600)
     results.sort(key=lambda r: r["k"])
     by_class: dict[str, list[dict[str, Any]]] = {}
